@@ -140,7 +140,10 @@ fn value_must_reject(id: u64, v: u64) -> Option<&'static str> {
 
 /// values the RFC does not call invalid but the library may refuse: judged in neither direction
 fn value_dont_care(id: u64, v: u64) -> bool {
-    id == 0x03 && v > 65527
+    // exactly 2^60 streams: legal per RFC 9000 §4.6, but the library's own stream-count limit
+    // (qbase::sid::MAX_STREAMS_LIMIT = 2^60-1, also applied to MAX_STREAMS frames, recorded under
+    // C05.roundtrip:max_streams.rejected:2^60) refuses it: stricter than the RFC, not a C18 violation
+    (id == 0x03 && v > 65527) || ((id == 0x08 || id == 0x09) && v == P60)
 }
 
 // ------------------------------------------------------------------------------------------------
@@ -537,7 +540,7 @@ const VALS: [u64; 34] = [
 fn legal_value(rng: &mut Rng, id: u64) -> u64 {
     let (lo, hi) = match id {
         0x03 => (1200, 65527),
-        0x08 | 0x09 => (0, P60),
+        0x08 | 0x09 => (0, P60 - 1), // 2^60 itself is in the dont-care region (library limit is 2^60-1)
         0x0a => (0, 20),
         0x0b => (0, (1 << 14) - 1),
         0x0e => (2, VMAX),
